@@ -1262,6 +1262,17 @@ pub fn resume(rng: &mut Rng) -> Case {
             g.rollback_stage(op, kind);
         }
     }
+    if g.rng.chance(1, 5) {
+        // the connection is lost while a QoS 2 publish is *between its phases*: the context has
+        // processed the PUBREC, the caller has not yet been polled to submit the PUBREL (it
+        // does so while no connection is being served)
+        let recs: Vec<(usize, AckKind)> = g.ack_candidates().into_iter().filter(|(_, k)| *k == AckKind::Pubrec).collect();
+        if !recs.is_empty() {
+            let (op, kind) = recs[g.rng.usize_below(recs.len())];
+            g.send_ack(op, kind);
+            g.push(Step::Poll(TaskRef::Ctx));
+        }
+    }
     let cut = g.rng.below(12);
     if cut >= 10 {
         // the connection is ended by the user's own disconnect() (no Session Expiry override):
